@@ -89,7 +89,7 @@ def exact_configs(m, cfgs):
     return probs
 
 
-def numeric_predicates(m, seed):
+def _numeric_predicates(m, seed):
     """Returns list of (name, holds, detail). No external oracle: closed forms of the convention and group laws."""
     T = m["transform"]
     rng = np.random.RandomState(seed % (2 ** 31))
@@ -195,3 +195,14 @@ def replay(rep, pid, case):
         for name, holds, detail in numeric_predicates(m, case.get("seed", 1)):
             if not holds and name == case.get("name"):
                 rep.violation("C17 replay: numeric predicate %s: %s" % (name, detail), case)
+
+
+def numeric_predicates(m, seed):
+    """An exception raised by the library while a predicate is evaluated is an observation (a failing predicate); one that never
+    entered pyins is a defect of the harness."""
+    try:
+        return _numeric_predicates(m, seed)
+    except Exception as e:
+        if not exc.entered_pyins(e):
+            raise
+        return [("library_raised", False, exc.describe(e))]
